@@ -299,38 +299,44 @@ class RetryExecutor(CanCustomizeBind, Executor):
 
     def _submit_now(self, job):
         # Pop job since we'll replace it.
-        # We need to hold the lock for the entire duration so that other
-        # threads won't see _jobs between our removal and re-add of the job
+        # We need to hold the future's lock for the entire duration: someone could
+        # call cancel after the done() check below and before we submit, and a cancel
+        # must not see _jobs between our removal and re-add of the job.
+        #
+        # The executor-wide lock is deliberately NOT held while calling into the
+        # delegate. submit() may block (e.g. a throttling executor in blocking mode)
+        # or run the callable - and with it, done callbacks of other futures, or
+        # nested calls to our own submit() - right here in this thread. Those need
+        # self._lock to make progress, so holding it here can deadlock.
+        # Nobody but a cancel of this same future cares about the job being
+        # briefly absent from _jobs, and that is excluded by the future's lock.
         with job.future._me_lock:
-            with self._lock:
-                self._pop_job(job)
+            self._pop_job(job)
 
-                # We need the future's lock now too, because someone could
-                # call cancel after this check and before we submit.
-                if job.future.done():
-                    self._log.debug(
-                        "future done %s - not submitting to delegate", job.future
-                    )
-                    return
-
-                if job.attempt != 0:
-                    metrics.RETRY_TOTAL.labels(executor=self._name).inc()
-
-                delegate_future = self._delegate.submit(job.fn, *job.args, **job.kwargs)
-                job.future.delegate_future = delegate_future
-
-                new_job = RetryJob(
-                    job.policy,
-                    delegate_future,
-                    job.future,
-                    job.attempt + 1,
-                    None,
-                    job.fn,
-                    job.args,
-                    job.kwargs,
+            if job.future.done():
+                self._log.debug(
+                    "future done %s - not submitting to delegate", job.future
                 )
-                self._append_job(new_job)
-                self._log.debug("Submitted: %s", new_job)
+                return
+
+            if job.attempt != 0:
+                metrics.RETRY_TOTAL.labels(executor=self._name).inc()
+
+            delegate_future = self._delegate.submit(job.fn, *job.args, **job.kwargs)
+            job.future.delegate_future = delegate_future
+
+            new_job = RetryJob(
+                job.policy,
+                delegate_future,
+                job.future,
+                job.attempt + 1,
+                None,
+                job.fn,
+                job.args,
+                job.kwargs,
+            )
+            self._append_job(new_job)
+            self._log.debug("Submitted: %s", new_job)
 
         delegate_future.add_done_callback(self._delegate_callback)
         self._wake_thread()
